@@ -1,6 +1,7 @@
 import Csproto.Props.C04
 import Csproto.Model.GenDec
 import Csproto.Bridge.Templates
+import Csproto.Bridge.Dispatch
 /-
   C09 — Marshal output depends only on the message's current contents.
 
@@ -123,6 +124,67 @@ theorem readers_agree (S : Schema) (md : MD) (s : St) (n : Nat) :
   induction n with
   | zero => rfl
   | succ n ih => simp only [List.replicate_succ, run, step, genMarshal_no_cache, Bool.false_eq_true, if_false]; rw [ih]
+
+/-! ### Unmarshal of the empty payload, and the routes through csproto -/
+
+/-- generated `Unmarshal` of zero bytes, when it succeeds, yields the contents of a new message -/
+theorem unmarshal_empty_ok (S : Schema) (md : MD) (fast : Bool) (fs : List F) (unk : Bytes)
+    (h : unmarshal S fast md [] = .ok (fs, unk)) : fs = initFields md ∧ unk = [] := by
+  simp only [unmarshal, unmarshalMsg, List.length_nil] at h
+  by_cases hr : (!hasRequired md && ([] : Bytes).isEmpty) = true
+  · simp only [hr, if_true] at h
+    cases h; exact ⟨rfl, rfl⟩
+  · simp only [hr] at h
+    simp [unmarshalLoop, Dec.len] at h
+    split at h
+    · cases h
+    · cases h; exact ⟨rfl, rfl⟩
+
+/-- zero bytes are the encoding of "nothing set": whatever the message held, after `Unmarshal(nil)` /
+    `Unmarshal([]byte{})` (which may fail only for a missing required field) its contents are those of a new
+    message — the receiver's earlier contents are gone -/
+theorem unmarshal_empty_is_reset (rc : Bool) (S : Schema) (md : MD) (s : St) (fast : Bool) :
+    (step rc S md s (.unmarshal [] fast)).1.fs = initFields md ∧
+    (step rc S md s (.unmarshal [] fast)).1.unk = [] := by
+  simp only [step]
+  cases h : unmarshal S fast md [] with
+  | ok r =>
+    obtain ⟨fs, unk⟩ := r
+    obtain ⟨h1, h2⟩ := unmarshal_empty_ok S md fast fs unk h
+    exact ⟨h1, h2⟩
+  | err => exact ⟨rfl, rfl⟩
+  | panic => exact ⟨rfl, rfl⟩
+
+/-- hence the next Marshal returns the bytes of the empty contents, not of the previous ones -/
+theorem marshal_after_empty_unmarshal (S : Schema) (md : MD) (s : St) (fast : Bool) :
+    run false S md s [.unmarshal [] fast, .marshal] = [marshal S md (initFields md) []] := by
+  rw [history_invariant]
+  simp only [specRun]
+  cases h : unmarshal S fast md [] with
+  | ok r =>
+    obtain ⟨fs, unk⟩ := r
+    obtain ⟨h1, h2⟩ := unmarshal_empty_ok S md fast fs unk h
+    simp [specRun, h1, h2]
+  | err => simp [specRun]
+  | panic => simp [specRun]
+
+/-- the routes "through csproto": `csproto.Unmarshal` (and `GrpcCodec.Unmarshal`, which only calls it) consists
+    of the three interface probes and nothing else — no statement ahead of them that could return before the
+    receiver is reset — and each arm resets before it decodes (`proto.Unmarshal` resets by contract); likewise
+    `csproto.Marshal` / `csproto.Size` go straight to the generated methods.  So the `Op`s above are what these
+    routes execute. -/
+theorem fact_csproto_routes :
+    Generated.Unmarshal_probes = ["Unmarshaler:.Reset,.Unmarshal", "ProtoV1Unmarshaler:.Reset,.XXX_Unmarshal", "proto.Message:proto.Unmarshal"] ∧
+    Generated.Marshal_probes = ["Marshaler:.Marshal", "ProtoV1Marshaler:.XXX_Size,.XXX_Marshal", "proto.Message:proto.Marshal"] ∧
+    Generated.Size_probes = ["Sizer:.Size", "ProtoV1Sizer:.XXX_Size", "proto.Message:proto.Size"] :=
+  ⟨Bridge.unmarshal_probes_ok, Bridge.marshal_probes_ok, Bridge.size_probes_ok⟩
+
+/-- proto2 extensions are sized and written in an order fixed at generation time (fact), so `Gen.marshal`
+    being a function of the contents carries over to them: nothing call-dependent (the runtime's map order)
+    enters the output -/
+theorem fact_extension_order_static :
+    Generated.extensionLoops = [("singlefile.go.tmpl", true, true), ("permessage.go.tmpl", true, true)] ∧
+    Generated.runtimeOrderedIteration = 0 := Bridge.Templates.extension_order_is_static
 
 /-! ### the negation for the code before the fix (documented finding B11) -/
 
